@@ -19,7 +19,7 @@ Record cli_obs := mkCliObs {
   c_sentinel_ok : option bool; c_rows : list (N * N * json * option f64); c_rows_ok : bool;
   c_bestfile : option json; c_summary : option (f64 * N * N); c_survivors : nat; c_panicked : bool;
   c_timed_out : bool; c_verbose_same : bool; c_has_failed_stdout : bool;
-  c_wall_ms : N; c_limit_ms : option N; c_all_fast_ok : bool; c_guess_json : option json; c_failed_to_reap : bool; c_deadline_ms : option N; c_sigint : bool; c_values : list (option f64) }.
+  c_wall_ms : N; c_limit_ms : option N; c_all_fast_ok : bool; c_guess_json : option json; c_failed_to_reap : bool; c_deadline_ms : option N; c_sigint : bool; c_gaveup : nat; c_values : list (option f64) }.
 
 (** the spec files of tools/clistream.py *)
 Definition cli_spec (i : nat) : spec :=
@@ -238,6 +238,10 @@ Definition mon_C08 (o : cli_obs) : bool :=
 Definition mon_C11 (o : cli_obs) : bool :=
   mon_C11_base o && match c_guess o with GInit | GOther => mon_C08 o | _ => true end.
 
+(** ** C05 through the binary: the children of the first wave wait for one another (rendezvous
+    with a 10 s give-up): none gives up, i.e. min(num_concurrent, N) children ran at the same time *)
+Definition mon_C05 (o : cli_obs) : bool := negb (c_timed_out o) && Nat.eqb (c_gaveup o) 0.
+
 (** ** C07 *)
 (** no survivor; and an evaluation over its time limit is rejected and the run goes on: with a
     per-evaluation limit, no target, no time limit for the run, only accepted/rejected scripted
@@ -346,5 +350,5 @@ Definition judge_cli (o : cli_obs) : string :=
              end in
   ("CLI idx=" ++ N2s (c_idx o) ++ " acc=" ++ acc ++
    " C07=" ++ OpsCheck.b2s (mon_C07 o) ++ " C14=" ++ OpsCheck.b2s (mon_C14 o) ++ " C15=" ++ OpsCheck.b2s (mon_C15 o) ++
-   " C16=" ++ OpsCheck.b2s (mon_C16 o && mon_C16_files o) ++ " C03=" ++ OpsCheck.b2s (mon_C03 o) ++ " C04=" ++ OpsCheck.b2s (mon_C04 o) ++ " C06=" ++ OpsCheck.b2s (mon_C06 o) ++ " C11=" ++ OpsCheck.b2s (mon_C11 o) ++ " C08=" ++ OpsCheck.b2s (mon_C08 o) ++ " code=" ++ (if exit_zero o then "0" else "nz") ++
+   " C16=" ++ OpsCheck.b2s (mon_C16 o && mon_C16_files o) ++ " C03=" ++ OpsCheck.b2s (mon_C03 o) ++ " C04=" ++ OpsCheck.b2s (mon_C04 o) ++ " C06=" ++ OpsCheck.b2s (mon_C06 o) ++ " C11=" ++ OpsCheck.b2s (mon_C11 o) ++ " C08=" ++ OpsCheck.b2s (mon_C08 o) ++ " C05=" ++ OpsCheck.b2s (mon_C05 o) ++ " code=" ++ (if exit_zero o then "0" else "nz") ++
    " kids=" ++ N2s (N.of_nat (n_started o)) ++ " END").
